@@ -10,6 +10,10 @@ Definition hash (k : key) : N := k.
 (** Times are seconds relative to the wall clock at the start of the case; every Store
     expiry is at least an hour away from it, so the clock reading of Get/Store is 0.
     gc is called with an explicit time (VerifGC) and may hit an expiry exactly. *)
+(** Steps of a fill script: store the [n] fresh keys from, from+1, ... (value = key, expiry
+    +3600), Flush, a sweep at [now], Close (stops the cleaner only), observe Len. *)
+Inductive fstep := FStores (from n : N) | FFlush | FGc (now : Z) | FClose | FLen.
+
 Inductive case :=
   (** one goroutine: operations, the keys each Store was observed to evict (Range before and
       after), and the result of every operation (Range sorted by key) *)
@@ -21,6 +25,9 @@ Inductive case :=
 | CConc (size : Z) (h : list label)
   (** keys 0..n-1 stored one after the other (value = key, expiry +3600): observed Len *)
 | CFill (size : Z) (n : N) (lenobs : N)
+  (** fills beyond the capacity interleaved with Flush / gc / Close at arbitrary points; every
+      key is stored at most once, so Len does not depend on the eviction choices *)
+| CFillSeq (size : Z) (script : list fstep) (lens : list N)
   (** goroutines storing distinct keys while another samples Len: the largest sample *)
 | CLenMax (size : Z) (maxlen : N).
 
@@ -99,6 +106,18 @@ Fixpoint pair_ops (i : nat) (ls : list label) (pend : list (nat * (nat * op))) (
   | _ :: r => pair_ops (S i) r pend acc
   end.
 
+Definition fill_ops (from n : N) : list sop :=
+  map (fun j => (OStore (from + N.of_nat j) (from + N.of_nat j) 3600%Z, 0%Z, @nil nat)) (seq 0 (N.to_nat n)).
+Fixpoint fill_run (c : cache) (script : list fstep) : list N :=
+  match script with
+  | [] => []
+  | FStores from n :: t => fill_run (fst (run hash c (fill_ops from n))) t
+  | FFlush :: t => fill_run (fst (exec hash c 0%Z [] OFlush)) t
+  | FGc now :: t => fill_run (fst (exec hash c 0%Z [] (OGc now))) t
+  | FClose :: t => fill_run c t
+  | FLen :: t => c_len c :: fill_run c t
+  end.
+
 Definition agree (c : case) : bool :=
   match c with
   | CSeq size ops obs => seq_agree (new size) (at0 ops) obs
@@ -111,6 +130,7 @@ Definition agree (c : case) : bool :=
   | CFill size n lenobs =>
     let ops := map (fun j => (OStore (N.of_nat j) (N.of_nat j) 3600%Z, 0%Z, @nil nat)) (seq 0 (N.to_nat n)) in
     c_len (fst (run hash (new size) ops)) =? lenobs
+  | CFillSeq size script lens => list_eqb N.eqb (fill_run (new size) script) lens
   | CLenMax size maxlen => (Z.of_N maxlen <=? capacity size)%Z
   end.
 
@@ -198,12 +218,25 @@ Definition conc_spec (cap : Z) (h : list label) : bool :=
       end) done
   end.
 
+(** Len is never above the capacity, whatever preceded, nor above the number of keys stored
+    since the last Flush; one observation per FLen *)
+Fixpoint fill_spec (cap : Z) (live : N) (script : list fstep) (lens : list N) : bool :=
+  match script, lens with
+  | [], [] => true
+  | FStores _ n :: t, _ => fill_spec cap (live + n) t lens
+  | FFlush :: t, _ => fill_spec cap 0 t lens
+  | FGc _ :: t, _ | FClose :: t, _ => fill_spec cap live t lens
+  | FLen :: t, l :: lens' => (Z.of_N l <=? cap)%Z && (l <=? live) && fill_spec cap live t lens'
+  | _, _ => false
+  end.
+
 Definition spec (c : case) : bool :=
   match c with
   | CSeq size ops obs => seq_spec (cap_spec size) [] (at0 ops) obs
   | CSeqT size ops obs => seq_spec (cap_spec size) [] ops obs
   | CConc size h => conc_spec (cap_spec size) h
   | CFill size n lenobs => (Z.of_N lenobs <=? cap_spec size)%Z && (lenobs <=? n)
+  | CFillSeq size script lens => fill_spec (cap_spec size) 0 script lens
   | CLenMax size maxlen => (Z.of_N maxlen <=? cap_spec size)%Z
   end.
 
@@ -231,5 +264,7 @@ Definition nontrivial (c : case) : bool :=
     | None => false
     end
   | CFill size n _ => odd_size size || (cap_spec size <? Z.of_N n)%Z
+  | CFillSeq size script _ =>
+    existsb (fun x => match x with FFlush | FGc _ | FClose => true | _ => false end) script
   | CLenMax size _ => true
   end.
